@@ -24,7 +24,7 @@ None == [none |-> TRUE]
 ModelMesh(sb, kk) ==
   LET m0    == SubMesh(sb, kk)
       cyc0  == SubCycles(sb)
-      orig  == SeqOfSetSorted(Used(cyc0))                 \* rank -> base vertex
+      orig  == SeqOfSetSorted(UNION {Rn(cyc0[c]) : c \in DOMAIN cyc0})   \* rank -> base vertex
       nv0   == Len(orig)
       pairs == Dedup(AllPairs(Renumber(cyc0), 1), <<>>)
       P(v)  == Base.pos[orig[v]]
